@@ -316,14 +316,22 @@ def check_query(st, doc, text, shp, segs, ptxt, cache):
         if nc.path is None:
             st.fail("%s|no-path" % sig, case, "a concrete path", "None")
             continue
-        printed = str(nc.path)
-        other = YAMLPath(nc.path)
-        other.separator = (PathSeparators.DOT
-                           if printed.startswith("/") or printed == ""
-                           else PathSeparators.FSLASH)
+        try:
+            printed = str(nc.path)
+            other = YAMLPath(nc.path)
+            other.separator = (PathSeparators.DOT
+                               if printed.startswith("/") or printed == ""
+                               else PathSeparators.FSLASH)
+            str(other)
+            esc = nc.path.escaped
+        except Exception as ex:           # pylint: disable=broad-except
+            # the reported path is not even a path (it cannot be read back)
+            st.fail("%s|reported-path-unreadable" % sig, case,
+                    "a path which parses", "%s: %s" % (
+                        type(ex).__name__, str(ex)[:120]))
+            continue
         # a path naming the node - or one of its ancestors - by an anchor
         # resolves once per place that anchor is aliased
-        esc = nc.path.escaped
         ends_anchor = any(seg[0] is PathSegmentTypes.ANCHOR for seg in esc)
         for how, ptext in (("as-printed", printed), ("other", str(other))):
             if how == "other" and ptext.startswith("/") and \
